@@ -966,7 +966,24 @@ func ruleOU22(c *Ctx) {
 				case *ssa.Call:
 					// a measurement of something written (len(id), visibleLen(text)) is the row's own content, however the
 					// text measured was chosen
+					isSetting := func(n string) bool {
+						switch n {
+						case "os.Getenv", "os.LookupEnv", "os.Environ", "os.ReadFile", "os.UserHomeDir", "os.UserConfigDir":
+							return true
+						}
+						return false
+					}
+					if nme := calleeFullName(&x.Call); isSetting(nme) {
+						bad = nme
+						return
+					}
 					if nme := calleeFullName(&x.Call); nme == "builtin len" || strings.Contains(nme, "runewidth.") || strings.HasPrefix(nme, "unicode/utf8.RuneCount") {
+						// ... unless what is measured is the setting itself (len(os.Getenv("...")))
+						for _, a := range x.Call.Args {
+							if cl, _ := callOf(strip(a)); cl != nil && isSetting(calleeFullName(&cl.Call)) {
+								bad = calleeFullName(&cl.Call)
+							}
+						}
 						return
 					}
 					if g := calleeOf(&x.Call); g != nil && measure[g] {
